@@ -6,6 +6,8 @@ import (
 	"fmt"
 	"math/rand"
 	"os"
+	"os/exec"
+	"path/filepath"
 	"sort"
 	"strings"
 	"sync/atomic"
@@ -28,6 +30,9 @@ type c05Agent struct {
 }
 
 type c05Scenario struct {
+	// template-edit flavour: the workflow as it is after the task templates were rewritten between two
+	// environments of one core life (same roles, same commands and wants; other constraints, one more channel)
+	Root2      *roleSpec         `json:"workflow_after_edit,omitempty"`
 	PortBudget map[string]string `json:"port_budget,omitempty"` // task role name -> exact | fewer | plenty (override-bind flavour)
 	Index      int               `json:"index"`
 	Flavour    string            `json:"flavour"`
@@ -39,7 +44,7 @@ type c05Scenario struct {
 var c05Flavours = []string{
 	"plain", "tight-cpu", "static-vs-dynamic", "host-absent", "multi-valued", "tight-mem", "same-static-twice",
 	"override", "exact-cpu", "static-vs-control", "port-starved", "many-per-host", "nearest-unsat", "no-high-ports",
-	"executors", "unsat-constraint", "override-bind", "exact-mem", "override", "host-absent",
+	"executors", "unsat-constraint", "override-bind", "exact-mem", "template-edit", "host-absent",
 }
 
 var c05AttrPool = map[string][]string{
@@ -84,6 +89,9 @@ func c05Gen(c *vlib.Ctx, idx int) c05Scenario {
 	wf := fmt.Sprintf("c05w%d", idx)
 	if fl == "override-bind" {
 		return c05GenOverrideBind(sc, r, wf)
+	}
+	if fl == "template-edit" {
+		return c05GenTemplateEdit(sc, r, wf)
 	}
 	nAgents := 1 + r.Intn(3)
 	if fl == "many-per-host" || fl == "same-static-twice" {
@@ -545,10 +553,63 @@ func c05Run(c *vlib.Ctx, idx int) {
 
 	ctx, cancel := coresim.Ctx(120 * time.Second)
 	t0 := time.Now()
-	_, cerr := s.Client.NewEnvironment(ctx, &pb.NewEnvironmentRequest{WorkflowTemplate: sc.Root.Name, Vars: map[string]string{}})
+	reply1, cerr := s.Client.NewEnvironment(ctx, &pb.NewEnvironmentRequest{WorkflowTemplate: sc.Root.Name, Vars: map[string]string{}})
 	cancel()
 	obs.Steps = append(obs.Steps, fmt.Sprintf("NewEnvironment(%s) err=%q in %s", sc.Root.Name, truncate(grpcMsg(cerr), 300), time.Since(t0).Round(time.Millisecond)))
 	c.Count("deployments_driven", 1)
+	gen2Seq := int64(-1) // tasks launched after this point belong to the second generation (template-edit)
+	if sc.Root2 != nil {
+		if cerr != nil {
+			c.Inconclusive(fmt.Sprintf("scenario %d: first-generation environment could not be created: %s", idx, truncate(grpcMsg(cerr), 300)))
+		} else {
+			step := func(what string, err error) bool {
+				obs.Steps = append(obs.Steps, fmt.Sprintf("%s err=%q", what, truncate(grpcMsg(err), 300)))
+				if err != nil {
+					c.Inconclusive(fmt.Sprintf("scenario %d: %s failed: %s", idx, what, truncate(grpcMsg(err), 300)))
+				}
+				return err == nil
+			}
+			ctx, cancel = coresim.Ctx(120 * time.Second)
+			_, derr := s.Client.DestroyEnvironment(ctx, &pb.DestroyEnvironmentRequest{Id: reply1.GetEnvironment().GetId()})
+			cancel()
+			ok := step("DestroyEnvironment(generation 1)", derr)
+			// rewrite the task templates in the scratch repository (a new commit), let the core fetch it
+			if ok {
+				for k, v := range sc.Root2.files() {
+					if strings.HasPrefix(k, "tasks/") {
+						if werr := os.WriteFile(filepath.Join(s.RepoDir, k), []byte(v), 0o644); werr != nil {
+							ok = step("rewrite "+k, werr)
+						}
+					}
+				}
+			}
+			if ok {
+				for _, args := range [][]string{{"add", "-A"}, {"-c", "user.name=verif", "-c", "user.email=verif@example.invalid", "commit", "-q", "-m", "templates v2"}} {
+					cmd := exec.Command("git", args...)
+					cmd.Dir = s.RepoDir
+					if out, gerr := cmd.CombinedOutput(); gerr != nil {
+						ok = step("git "+args[len(args)-1], fmt.Errorf("%v: %s", gerr, out))
+					}
+				}
+			}
+			if ok {
+				ctx, cancel = coresim.Ctx(60 * time.Second)
+				_, rerr := s.Client.RefreshRepos(ctx, &pb.RefreshReposRequest{Index: -1})
+				cancel()
+				ok = step("RefreshRepos", rerr)
+			}
+			if ok {
+				gen2Seq = s.Master.Note("GENERATION_2", nil)
+				ctx, cancel = coresim.Ctx(120 * time.Second)
+				t2 := time.Now()
+				_, cerr = s.Client.NewEnvironment(ctx, &pb.NewEnvironmentRequest{WorkflowTemplate: sc.Root.Name, Vars: map[string]string{}})
+				cancel()
+				obs.Steps = append(obs.Steps, fmt.Sprintf("NewEnvironment(%s, templates v2) err=%q in %s", sc.Root.Name, truncate(grpcMsg(cerr), 300), time.Since(t2).Round(time.Millisecond)))
+				c.Count("deployments_driven", 1)
+				c.Count("second_generation_deployments", 1)
+			}
+		}
+	}
 	if os.Getenv("VERIF_TRACE") != "" {
 		fmt.Fprintf(os.Stderr, "TRACE %d %s: %s\n", idx, sc.Flavour, truncate(grpcMsg(cerr), 260))
 	}
@@ -591,6 +652,12 @@ func c05Run(c *vlib.Ctx, idx int) {
 
 	// ---------------- oracle: everything from the master's log ----------------
 	specByPath := map[string]*roleSpec{}
+	spec2ByPath := map[string]*roleSpec{}
+	if sc.Root2 != nil {
+		for _, tr := range sc.Root2.taskRoles() {
+			spec2ByPath[tr.path] = tr
+		}
+	}
 	for _, tr := range sc.Root.taskRoles() {
 		specByPath[tr.path] = tr
 	}
@@ -639,6 +706,10 @@ func c05Run(c *vlib.Ctx, idx int) {
 		portOwner := map[uint64]owner{}
 		for _, t := range ts {
 			tr := specByPath[t.RolePath]
+			if gen2Seq > 0 && t.SeqLaunch > gen2Seq && spec2ByPath[t.RolePath] != nil {
+				tr = spec2ByPath[t.RolePath] // launched for the environment created after the templates were rewritten
+				c.Count("second_generation_tasks_launched", 1)
+			}
 			if tr == nil {
 				continue // the flush task
 			}
@@ -990,4 +1061,53 @@ func c05GenOverrideBind(sc c05Scenario, r *rand.Rand, wf string) c05Scenario {
 	}
 	root.link(nil)
 	return sc
+}
+
+// c05GenTemplateEdit: two generations of the same workflow on one core life. Between them the task
+// template files are rewritten: command and wants stay, the template-level constraint moves from one
+// value of an agent attribute to another (so the task has to move to the other agent) and one more
+// inbound tcp channel is declared. Everything launched for the second environment is judged by v2.
+func c05GenTemplateEdit(sc c05Scenario, r *rand.Rand, wf string) c05Scenario {
+	attr := pick(r, "rack", "kind", "zone")
+	v1, v2 := c05AttrPool[attr][0], c05AttrPool[attr][1]
+	if r.Intn(2) == 0 {
+		v1, v2 = v2, v1
+	}
+	for j, v := range []string{v1, v2} {
+		h := fmt.Sprintf("host%d", j+1)
+		sc.Agents = append(sc.Agents, c05Agent{Host: h, Attrs: map[string]string{"machine_id": h, "site": "p2", attr: v}, CPU: 16, Mem: 16384,
+			Ports: [][2]uint64{{9000, 9100}, {30000, 30100}}})
+	}
+	build := func(gen int) *roleSpec {
+		rr := scRandCopy(sc.Index, 77) // the same choices in both generations
+		root := &roleSpec{Name: wf, Defaults: []kv{{"hosts", `["host1"]`}, {"deploy_timeout", "6s"}}}
+		n := 1 + rr.Intn(2)
+		for t := 0; t < n; t++ {
+			tpl := &tplSpec{Name: fmt.Sprintf("%s-te%d", wf, t), Mode: []string{"fairmq", "direct", "basic"}[rr.Intn(3)],
+				CPU: []float64{0.1, 0.25}[rr.Intn(2)], Mem: []float64{32, 128}[rr.Intn(2)]}
+			nb := 1 + rr.Intn(2)
+			for b := 0; b < nb; b++ {
+				tpl.Bind = append(tpl.Bind, chanSpec{Name: fmt.Sprintf("in%d", b), Type: "push", Addressing: "tcp"})
+			}
+			tpl.Constraints = []kv{{attr, v1}}
+			if gen == 2 {
+				tpl.Constraints = []kv{{attr, v2}}
+				tpl.Bind = append(tpl.Bind, chanSpec{Name: "added", Type: "pull", Addressing: "tcp"})
+			}
+			role := &roleSpec{Name: fmt.Sprintf("te%d", t), Task: tpl, Critical: true}
+			root.Children = append(root.Children, role)
+		}
+		// a bystander whose template does not change
+		root.Children = append(root.Children, &roleSpec{Name: "same", Critical: true, Task: &tplSpec{Name: wf + "-same", Mode: "direct", CPU: 0.1, Mem: 32,
+			Bind: []chanSpec{{Name: "in0", Type: "push", Addressing: "tcp"}}}})
+		root.link(nil)
+		return root
+	}
+	sc.Root, sc.Root2 = build(1), build(2)
+	sc.Notes = append(sc.Notes, fmt.Sprintf("templates rewritten between two environments: constraint %s=%s -> %s=%s, one more inbound tcp channel; command and wants unchanged", attr, v1, attr, v2))
+	return sc
+}
+
+func scRandCopy(idx int, salt int64) *rand.Rand {
+	return rand.New(rand.NewSource(int64(idx)*7919 + salt))
 }
